@@ -100,5 +100,8 @@ func TestMakeCorpus(t *testing.T) {
 			write("TestQuery", "query-parser", Case{Kind: "query", Query: q})
 		}
 	}
+	for _, q := range extraQueries {
+		write("TestQuery", "query-extra", Case{Kind: "query", Query: q})
+	}
 	t.Logf("wrote %d corpus cases to %s (repo pool %d inputs, %d programs)", n, dir, len(repoPool), len(repoQueries))
 }
